@@ -153,6 +153,10 @@ pub struct PeImage {
     pub text: Vec<u8>,
     pub xdata_rva: u32,
     pub text_rva: std::ops::Range<u32>,
+    /// The UNWIND_INFO blob `xdata` is presented as `.rdata` (its first `rdata_len` bytes)
+    /// followed immediately by `.xdata` (the rest): all in `.xdata` (0), all in `.rdata` (the
+    /// whole length) or split at the start of a record, the two sections back to back.
+    pub rdata_len: u32,
 }
 
 /// Lays out `.text`, `.xdata` (UNWIND_INFOs, chained via CHAININFO) and `.pdata`.
@@ -166,6 +170,7 @@ pub fn write_pe(funcs: &[PeFuncSpec], text_rva: u32) -> PeImage {
     let xdata_rva = (text_end + 0xfff) & !0xfff;
     let mut xdata: Vec<u8> = Vec::new();
     let mut pdata: Vec<u8> = Vec::new();
+    let mut info_starts: Vec<u32> = Vec::new();
     let mut sorted: Vec<&PeFuncSpec> = funcs.iter().collect();
     sorted.sort_by_key(|f| f.begin);
     for f in sorted {
@@ -176,6 +181,7 @@ pub fn write_pe(funcs: &[PeFuncSpec], text_rva: u32) -> PeImage {
                 xdata.push(0);
             }
             let addr = xdata_rva + xdata.len() as u32;
+            info_starts.push(xdata.len() as u32);
             let codes = write_codes(&info.codes);
             let flags: u8 = if parent.is_some() { 0x4 } else { 0 };
             xdata.push(1 | (flags << 3));
@@ -196,7 +202,16 @@ pub fn write_pe(funcs: &[PeFuncSpec], text_rva: u32) -> PeImage {
         pdata.extend_from_slice(&f.end.to_le_bytes());
         pdata.extend_from_slice(&parent.unwrap_or(xdata_rva).to_le_bytes());
     }
-    PeImage { pdata, xdata, text, xdata_rva, text_rva: text_rva..text_end }
+    // the section layout is a function of the image (so that every rebuild of the same module
+    // presents it the same way)
+    let sel = xdata.len() / 4 + funcs.len();
+    let rdata_len = match sel % 4 {
+        0 => 0,
+        1 => xdata.len() as u32,
+        _ if info_starts.is_empty() => 0,
+        _ => info_starts[(sel / 4) % info_starts.len()],
+    };
+    PeImage { pdata, xdata, text, xdata_rva, text_rva: text_rva..text_end, rdata_len }
 }
 
 /// Section provider for PE modules (`ExplicitModuleSectionInfo` has no `.pdata`).
@@ -213,14 +228,20 @@ impl framehop::ModuleSectionInfo<Bytes> for PeSectionInfo {
         let b = self.base_svma;
         match name {
             b".text" => Some(b + self.image.text_rva.start as u64..b + self.image.text_rva.end as u64),
-            b".xdata" => Some(b + self.image.xdata_rva as u64..b + self.image.xdata_rva as u64 + self.image.xdata.len() as u64),
+            b".xdata" if (self.image.rdata_len as usize) < self.image.xdata.len() => {
+                Some(b + (self.image.xdata_rva + self.image.rdata_len) as u64..b + self.image.xdata_rva as u64 + self.image.xdata.len() as u64)
+            }
+            b".rdata" if self.image.rdata_len > 0 => Some(b + self.image.xdata_rva as u64..b + (self.image.xdata_rva + self.image.rdata_len) as u64),
             _ => None,
         }
     }
     fn section_data(&mut self, name: &[u8]) -> Option<Bytes> {
         match name {
             b".pdata" => Some(Bytes(std::sync::Arc::new(self.image.pdata.clone()))),
-            b".xdata" => Some(Bytes(std::sync::Arc::new(self.image.xdata.clone()))),
+            b".xdata" if (self.image.rdata_len as usize) < self.image.xdata.len() => {
+                Some(Bytes(std::sync::Arc::new(self.image.xdata[self.image.rdata_len as usize..].to_vec())))
+            }
+            b".rdata" if self.image.rdata_len > 0 => Some(Bytes(std::sync::Arc::new(self.image.xdata[..self.image.rdata_len as usize].to_vec()))),
             b".text" => Some(Bytes(std::sync::Arc::new(self.image.text.clone()))),
             _ => None,
         }
@@ -814,6 +835,20 @@ pub fn run(tier: &str, seed: u64) -> Report {
         op!(Op::NewCache { c: "c1".into() });
         op!(Op::Mod { m: "m0".into(), spec: mspec.clone() });
         op!(Op::Add { u: "u0".into(), m: "m0".into() });
+        // ---------------------------------------------------------------- the same image elsewhere (C08)
+        let image_base_b: u64 = *p.pick(&[0x1_4000_0000u64, 0x7ff6_1234_0000, 0x40_0000, 0xffff_f800_0000_0000, 0xffff_f803_5a20_0000]);
+        let stack_top_b: u64 = *p.pick(&[0x7ffc_1000_0000u64, 0x14_fff0, 0xc0_0000_f000, 0xffff_a00f_1234_f000]);
+        let code_delta = image_base_b.wrapping_sub(image_base);
+        let mut mspec_b = mspec.clone();
+        mspec_b.base_avma = image_base_b;
+        mspec_b.start = mspec.start.wrapping_add(code_delta);
+        mspec_b.end = mspec.end.wrapping_add(code_delta);
+        let mut wb: World<X64H<MayAllocateDuringUnwind>> = World::new();
+        let mut lines_b = vec![wb.init_line(0, n_slots)];
+        for o in [Op::New { u: "u0".into() }, Op::NewCache { c: "c0".into() }, Op::Mod { m: "m0".into(), spec: mspec_b.clone() }, Op::Add { u: "u0".into(), m: "m0".into() }] {
+            lines_b.push(o.line(lines_b.len() as u64));
+            wb.exec(&o);
+        }
         // ---------------------------------------------------------------- ground truth walks
         let inner = &funcs[chain.last().unwrap().0];
         for stop in 0..inner.insns.len() {
@@ -842,9 +877,49 @@ pub fn run(tier: &str, seed: u64) -> Report {
                     key: "pe-walk-differs-from-true-chain".into(),
                     what: format!("the true call chain is {}", want.join(",")),
                     case: lines.join("\n"),
-                    impl_out: got,
+                    impl_out: got.clone(),
                     model_out: String::new(),
                 });
+            }
+            if code_delta != 0 {
+                let mut g = Prng::new(id * 977 + stop as u64);
+                let truth_b = simulate_pe(&funcs, &ch, image_base_b, stack_top_b, &mut g);
+                let mut mem_b = MemDesc::new(mem.default.clone());
+                for (a, v) in &truth_b.stack {
+                    mem_b.entries.push((*a, Some(*v)));
+                }
+                mem_b.cut = Some(stack_top_b + 8);
+                let (pc_b, mb0) = &truth_b.frames[0];
+                let ob = Op::Iter { u: "u0".into(), c: "c0".into(), pc: *pc_b, regs: RegsAny::X(pe_regs_to_x(*pc_b, mb0)), mem: mem_b, extra: 0, max: 64 };
+                lines_b.push(ob.line(lines_b.len() as u64));
+                let (ans_b, _) = wb.exec(&ob);
+                let got_b = ans_b.split(' ').next().unwrap_or("").trim_start_matches("items=").to_string();
+                let shifted: Vec<String> = got
+                    .split(',')
+                    .map(|it| match it.split_once(':') {
+                        Some((k, h)) => match u64::from_str_radix(h, 16) {
+                            Ok(v) => format!("{k}:{}", hex(v.wrapping_add(code_delta))),
+                            Err(_) => it.to_string(),
+                        },
+                        None => it.to_string(),
+                    })
+                    .collect();
+                rep.count("pe relocation twins");
+                if shifted.join(",") != got_b {
+                    rep.add_finding(Finding {
+                        props: vec!["C08".into()],
+                        kind: "oracle".into(),
+                        key: "pe-relocated-module-unwinds-differently".into(),
+                        what: format!(
+                            "the same PE image and thread state, mapped {code_delta:#x} higher (image base {image_base_b:#x} instead of {image_base:#x}, stack top {stack_top_b:#x} instead of {stack_top:#x}): frames {got} should become {} but are {got_b}; twin history:\n{}",
+                            shifted.join(","),
+                            lines_b.join("\n")
+                        ),
+                        case: lines.join("\n"),
+                        impl_out: got_b,
+                        model_out: String::new(),
+                    });
+                }
             }
             // per-step: sp and rbp after the step are the caller's; compare with the reference too
             for i in 0..truth.frames.len() {
